@@ -210,8 +210,10 @@ def mask_window_identities(chk, repo, clause):
     if not calls:
         # the window has to reach from the first to the last masked row / column: anything that is not derived from the
         # bounding box (e.g. a count of occupied rows) is too small for masks with gaps
-        chk.ob(clause, 'N-identity', 'propagate._mask_shape', 'bounding-box lengths', False,
-               f'returns {fmt(p.ret)[:160]}, which is not computed from the bounding box of the mask', f.loc(p.node))
+        chk.ob(clause, 'N-identity', 'propagate._mask_shape', 'bounding-box lengths', False if 'x' in f.param_names() else None,
+               (f'returns {fmt(p.ret)[:160]}, which is not computed from the bounding box of the mask' if 'x' in f.param_names() else
+                'undecided: the helper no longer takes the mask (the bounding box is handed in): the window is judged where it is used'),
+               f.loc(p.node))
     else:
         bq = [nf.index(calls[0].result, C(i)) for i in range(4)]
         chk.ob(clause, 'N-identity', 'propagate._mask_shape', 'bounding-box lengths',
@@ -219,8 +221,11 @@ def mask_window_identities(chk, repo, clause):
     f, p = one_path(repo, 'propagate._mask_shift', inline=extent_inline(repo))
     calls = p.calls('util.boundary')
     if not calls:
-        chk.ob(clause, 'N-identity', 'propagate._mask_shift', 'centre of the bounding box relative to floor(n/2)', False,
-               f'returns {fmt(p.ret)[:160]}, which is not computed from the bounding box of the mask', f.loc(p.node))
+        chk.ob(clause, 'N-identity', 'propagate._mask_shift', 'centre of the bounding box relative to floor(n/2)',
+               False if 'x' in f.param_names() else None,
+               (f'returns {fmt(p.ret)[:160]}, which is not computed from the bounding box of the mask' if 'x' in f.param_names() else
+                'undecided: the helper no longer takes the mask (the bounding box is handed in): the window is judged where it is used'),
+               f.loc(p.node))
         return
     bq = [nf.index(calls[0].result, C(i)) for i in range(4)]
     xs = nf.attr(S('x'), 'shape')
